@@ -394,3 +394,274 @@ Proof.
     change (pack 1 (Z.of_N (N.of_nat (4 + (4 + 4))))) with (Some [12]).
     reflexivity.
 Qed.
+
+(** * communities (RFC 1997) *)
+Definition hdr_com : bytes := [c_ATTR_Community_FLAG; attr_communities; 4].
+
+Lemma upper_dc a n : upper (dc a n) = dc a n.
+Proof.
+  unfold dc. rewrite upper_app. change (upper (58 :: show_dec n)) with (58 :: upper (show_dec n)).
+  rewrite !upper_digits by apply show_dec_digits. reflexivity.
+Qed.
+
+Lemma not_a_name a n : assoc_s (dc a n) well_known_upper = None.
+Proof.
+  unfold dc. destruct (show_dec_head a) as [d [r [E Hd]]]. rewrite E. cbn [app].
+  let t := eval vm_compute in well_known_upper in change well_known_upper with t.
+  cbn [assoc_s str_eqb].
+  replace (d =? 80) with false by lia. replace (d =? 65) with false by lia.
+  replace (d =? 82) with false by lia. replace (d =? 66) with false by lia.
+  replace (d =? 78) with false by lia. reflexivity.
+Qed.
+
+Lemma com_parse_one v : v < 4294967296 -> com_parse (be 4 v) = Ok [com_text v].
+Proof.
+  intros Hv. unfold com_parse, len. rewrite length_be.
+  change (N.of_nat 4 mod 4 =? 0) with true. cbv iota.
+  pose proof (length_be 4 v) as L.
+  destruct (be 4 v) as [|x r] eqn:E; [discriminate|].
+  unfold com_parse_words; fold com_parse_words. rewrite <- E.
+  rewrite take_be, unbe_be by assumption.
+  assert (D : drop 4 (be 4 v) = []) by (unfold drop; apply skipn_all2; rewrite length_be; lia).
+  rewrite D. reflexivity.
+Qed.
+
+Lemma c17_community v : v < 4294967296 ->
+  com_parse (ref_community v) = Ok [com_text v] /\
+  com_construct [com_text v] = Ok (hdr_com ++ ref_community v).
+Proof.
+  intros Hv. split; [apply com_parse_one; assumption|].
+  unfold ref_community.
+  destruct (assoc_n v well_known) eqn:E.
+  - unfold well_known in E. cbn [assoc_n] in E.
+    repeat match type of E with
+           | (if v =? ?k then _ else _) = _ =>
+               destruct (N.eqb_spec v k) as [->|_]; [clear E; vm_compute; reflexivity |]
+           end.
+    discriminate E.
+  - unfold com_text. rewrite E.
+    change (colon (show_dec (v / 65536)) (show_dec (v mod 65536))) with (dc (v / 65536) (v mod 65536)).
+    unfold com_construct, com_items, com_item. rewrite upper_dc, not_a_name, colons_dc.
+    rewrite !py_int_show_dec. cbn [obind].
+    replace (Z.of_N (v / 65536) * 65536 + Z.of_N (v mod 65536))%Z with (Z.of_N v) by lia.
+    rewrite pack4 by assumption. cbn [obind]. rewrite app_nil_r.
+    unfold packn, len. rewrite length_be. reflexivity.
+Qed.
+
+(** every registered name of the specification is the text of its value *)
+Lemma c17_community_names : forall v nm, In (v, nm) rfc_well_known -> com_text v = nm.
+Proof.
+  intros v nm H. unfold rfc_well_known in H. cbn [In] in H.
+  repeat (destruct H as [H|H]; [injection H as <- <-; vm_compute; reflexivity|]). destruct H.
+Qed.
+
+(** * IPv4-address layout: route-target, route-origin, redirect-nexthop *)
+Definition ipc (ip n : N) : str := show_ip4 ip ++ 58 :: show_dec n.
+
+Lemma show_ip4_notin c ip : (c < 48 \/ 57 < c) -> c <> 46 -> ~ In c (show_ip4 ip).
+Proof. intros Hc H46 Hin. destruct (show_ip4_chars ip c Hin); lia. Qed.
+Lemma no_ws_ip4 ip : no_ws (show_ip4 ip).
+Proof. intros x Hx. destruct (show_ip4_chars ip x Hx) as [->|H]; [reflexivity | unfold is_ws; lia]. Qed.
+Lemma no_ws_ipc ip n : no_ws (ipc ip n).
+Proof. unfold ipc. apply no_ws_app; [apply no_ws_ip4|]. apply no_ws_cons; [reflexivity | apply no_ws_dec]. Qed.
+Lemma strip_ipc ip n : strip (ipc ip n) = ipc ip n.
+Proof. apply strip_clean, no_ws_ipc. Qed.
+Lemma commas_ipc ip n : split_on 44 (ipc ip n) = [ipc ip n].
+Proof.
+  apply split_on_none. unfold ipc. apply notin_app; [apply show_ip4_notin; lia|].
+  apply notin_cons; [lia | apply show_dec_notin; lia].
+Qed.
+Lemma colons_ipc ip n : split_on 58 (ipc ip n) = [show_ip4 ip; show_dec n].
+Proof.
+  unfold ipc. rewrite split_on_app by (apply show_ip4_notin; lia).
+  rewrite split_on_none by (apply show_dec_notin; lia). reflexivity.
+Qed.
+Lemma colon1_ipc ip n : split1 58 (ipc ip n) = [show_ip4 ip; show_dec n].
+Proof. unfold ipc. apply split1_app, show_ip4_notin; lia. Qed.
+Lemma dot_ipc ip n : mem 46 (hd_str (split_on 58 (ipc ip n))) = true.
+Proof. rewrite colons_ipc. apply show_ip4_has_dot. Qed.
+
+Lemma ec_ip4_ipc k ip n : k < 65536 -> ip < 4294967296 -> n < 65536 ->
+  ec_ip4 k (ipc ip n) = Some (be 2 k ++ be 4 ip ++ be 2 n).
+Proof.
+  intros Hk Hi Hn. unfold ec_ip4, two_parts. rewrite colons_ipc. cbn [obind fst snd].
+  rewrite packn_ok by exact Hk. cbn [obind]. rewrite parse_show_ip4 by assumption. cbn [obind].
+  rewrite packn_ok by exact Hi. cbn [obind]. rewrite py_int_show_dec. cbn [obind].
+  rewrite pack2 by assumption. reflexivity.
+Qed.
+
+Lemma parse_ip4_layout (t s : N) nm ip n : ip < 4294967296 -> n < 65536 ->
+  ec_parse_code (t * 256 + s) (be 4 ip ++ be 2 n) = named (t * 256 + s) (txt_ip4 (be 4 ip ++ be 2 n)) ->
+  assoc_n (t * 256 + s) ext_com_str_dict = Some nm ->
+  ec_parse ([t; s] ++ be 4 ip ++ be 2 n) = Ok [Txt (nm ++ 58 :: ipc ip n)].
+Proof.
+  intros Ha Hn Hc Hnm. apply ec_parse_one; [rewrite !app_length, !length_be; reflexivity|].
+  unfold ec_parse1. cbn [app take firstn drop skipn]. rewrite two_code.
+  rewrite Hc. unfold named. rewrite Hnm. unfold txt_ip4, ip_text.
+  rewrite take_be_app, drop_be_app, !unbe_be by assumption. reflexivity.
+Qed.
+
+Lemma c17_rt_ip4 cp ip n : ip < 4294967296 -> n < 65536 ->
+  c17_ec cp (RtIp4 ip n) (codes "route-target" ++ 58 :: ipc ip n).
+Proof.
+  intros Hi Hn. split.
+  - apply (parse_ip4_layout 1 2); [assumption | assumption | reflexivity | reflexivity].
+  - exists [ItS 258 (ipc ip n)]. split.
+    + apply rest_ec_one; [apply notin_closed; reflexivity|].
+      change (rest_key cp (lower (strip (codes "route-target"))) (ipc ip n))
+        with (rmap (rt_value cp) (split_on 44 (strip (ipc ip n)))).
+      rewrite strip_ipc, commas_ipc. cbn [rmap]. unfold rt_value. rewrite strip_ipc, dot_ipc. reflexivity.
+    + apply ec_construct_one; [|len_be].
+      change (ec_item (ItS 258 (ipc ip n))) with (ec_ip4 c_BGP_EXT_COM_RT_1 (ipc ip n)).
+      rewrite ec_ip4_ipc by (assumption || reflexivity). reflexivity.
+Qed.
+
+Lemma c17_ro_ip4 cp ip n : ip < 4294967296 -> n < 65536 ->
+  c17_ec cp (RoIp4 ip n) (codes "route-origin" ++ 58 :: ipc ip n).
+Proof.
+  intros Hi Hn. split.
+  - apply (parse_ip4_layout 1 3); [assumption | assumption | reflexivity | reflexivity].
+  - exists [ItS 259 (ipc ip n)]. split.
+    + apply rest_ec_one; [apply notin_closed; reflexivity|].
+      change (rest_key cp (lower (strip (codes "route-origin"))) (ipc ip n))
+        with (rmap (ro_value cp) (split_on 44 (strip (ipc ip n)))).
+      rewrite strip_ipc, commas_ipc. cbn [rmap]. unfold ro_value. rewrite strip_ipc, dot_ipc. reflexivity.
+    + apply ec_construct_one; [|len_be].
+      change (ec_item (ItS 259 (ipc ip n))) with (ec_ip4 c_BGP_EXT_COM_RO_1 (ipc ip n)).
+      rewrite ec_ip4_ipc by (assumption || reflexivity). reflexivity.
+Qed.
+
+Lemma c17_redirect_nh cp ip n : ip < 4294967296 -> n < 65536 ->
+  c17_ec cp (RedirectNh ip n) (codes "redirect-nexthop" ++ 58 :: ipc ip n).
+Proof.
+  intros Hi Hn. split.
+  - apply (parse_ip4_layout 8 0); [assumption | assumption | reflexivity | reflexivity].
+  - exists [ItSI 2048 (show_ip4 ip) (Z.of_N n)]. split.
+    + apply rest_ec_one; [apply notin_closed; reflexivity|].
+      change (rest_key cp (lower (strip (codes "redirect-nexthop"))) (ipc ip n))
+        with (match split1 58 (strip (ipc ip n)) with
+              | [ip0; fl] => rbind (of_o (py_int fl)) (fun n => ROk [ItSI 2048 ip0 n])
+              | _ => RExc end).
+      rewrite strip_ipc, colon1_ipc, py_int_show_dec. reflexivity.
+    + apply ec_construct_one; [|len_be].
+      change (ec_item (ItSI 2048 (show_ip4 ip) (Z.of_N n))) with (ec_nh c_BGP_EXT_REDIRECT_NH (show_ip4 ip) (Z.of_N n)).
+      unfold ec_nh. rewrite parse_show_ip4 by assumption. cbn [obind].
+      rewrite packn_ok by exact Hi. cbn [obind]. rewrite pack2 by assumption. reflexivity.
+Qed.
+
+(** * EVPN: MAC mobility and ESI label (two numbers) *)
+Lemma be1 f : f < 256 -> be 1 f = [f].
+Proof. intros H. unfold be. change (N.of_nat 0) with 0. replace ((f / 256 ^ 0) mod 256) with f by (cbn; lia). reflexivity. Qed.
+
+Lemma rest_key_mobility cp v :
+  rest_key cp (codes "mac-mobility") v =
+  match split1 58 (strip v) with
+  | [a; b] => rbind (of_o (py_int a)) (fun x => rbind (of_o (py_int b)) (fun y => ROk [ItII 1536 x y]))
+  | _ => RExc end.
+Proof. reflexivity. Qed.
+Lemma rest_key_esi cp v :
+  rest_key cp (codes "esi-label") v =
+  match split1 58 (strip v) with
+  | [a; b] => rbind (of_o (py_int a)) (fun x => rbind (of_o (py_int b)) (fun y => ROk [ItII 1537 x y]))
+  | _ => RExc end.
+Proof. reflexivity. Qed.
+
+Lemma c17_mac_mobility cp f s : f < 256 -> s < 4294967296 ->
+  c17_ec cp (MacMobility f s) (codes "mac-mobility" ++ 58 :: dc f s).
+Proof.
+  intros Hf Hs. split.
+  - apply ec_parse_one; [len_be|]. unfold ec_parse1. cbn [ref_ec app take firstn drop skipn]. rewrite two_code.
+    change (ec_parse_code (6 * 256 + 0) (f :: 0 :: be 4 s)) with (named 1536 (txt_mobility (f :: 0 :: be 4 s))).
+    unfold named, txt_mobility. cbn [drop skipn nth].
+    change (assoc_n 1536 ext_com_str_dict) with (Some (codes "mac-mobility")).
+    rewrite unbe_be by assumption. reflexivity.
+  - exists [ItII 1536 (Z.of_N f) (Z.of_N s)]. split.
+    + apply rest_ec_one; [apply notin_closed; reflexivity|].
+      change (lower (strip (codes "mac-mobility"))) with (codes "mac-mobility").
+      rewrite rest_key_mobility, strip_dc, colon1_dc, !py_int_show_dec. reflexivity.
+    + apply ec_construct_one; [|len_be].
+      change (ec_item (ItII 1536 (Z.of_N f) (Z.of_N s))) with (ec_mobility 1536 (Z.of_N f) (Z.of_N s)).
+      unfold ec_mobility. rewrite packn_ok by reflexivity. cbn [obind].
+      rewrite pack1, pack4 by assumption. cbn [obind]. rewrite be1 by assumption. reflexivity.
+Qed.
+
+Lemma c17_esi_label cp f l : f < 256 -> l < 1048576 ->
+  c17_ec cp (EsiLabel f l) (codes "esi-label" ++ 58 :: dc f l).
+Proof.
+  intros Hf Hl. split.
+  - apply ec_parse_one; [len_be|]. unfold ec_parse1. cbn [ref_ec app take firstn drop skipn]. rewrite two_code.
+    change (ec_parse_code (6 * 256 + 1) (f :: 0 :: 0 :: be 3 (l * 16 + 1)))
+      with (named 1537 (txt_esi (f :: 0 :: 0 :: be 3 (l * 16 + 1)))).
+    unfold named, txt_esi. cbn [drop skipn nth].
+    change (assoc_n 1537 ext_com_str_dict) with (Some (codes "esi-label")).
+    rewrite unbe_be by (change (256 ^ N.of_nat 3) with 16777216; lia).
+    replace ((l * 16 + 1) / 16) with l by lia. reflexivity.
+  - exists [ItII 1537 (Z.of_N f) (Z.of_N l)]. split.
+    + apply rest_ec_one; [apply notin_closed; reflexivity|].
+      change (lower (strip (codes "esi-label"))) with (codes "esi-label").
+      rewrite rest_key_esi, strip_dc, colon1_dc, !py_int_show_dec. reflexivity.
+    + apply ec_construct_one; [|len_be].
+      change (ec_item (ItII 1537 (Z.of_N f) (Z.of_N l))) with (ec_esi 1537 (Z.of_N f) (Z.of_N l)).
+      unfold ec_esi. rewrite packn_ok by reflexivity. cbn [obind].
+      rewrite pack1 by assumption. cbn [obind].
+      replace (Z.of_N l * 16 + 1)%Z with (Z.of_N (l * 16 + 1)) by lia.
+      rewrite pack4 by lia. cbn [obind]. rewrite be1 by assumption.
+      change (be 4 (l * 16 + 1)) with (((l * 16 + 1) / 256 ^ N.of_nat 3) mod 256 :: be 3 (l * 16 + 1)).
+      reflexivity.
+Qed.
+
+(** * traffic-action (4 values) and traffic-marking (64 values): finite sweeps *)
+Definition action_text (s t : bool) : str :=
+  codes "traffic-action:S:" ++ show_dec (b2n s) ++ codes ",T:" ++ show_dec (b2n t).
+
+Lemma c17_traffic_action cp s t : c17_ec cp (TrafficAction s t) (action_text s t).
+Proof.
+  split.
+  - destruct s, t; vm_compute; reflexivity.
+  - exists [ItD 32775 (Some (Z.of_N (b2n s))) (Some (Z.of_N (b2n t)))].
+    destruct cp as [| |[|]], s, t; split; vm_compute; reflexivity.
+Qed.
+
+Lemma c17_traffic_marking cp d : d < 64 ->
+  c17_ec cp (TrafficMarking d) (codes "traffic-marking-dscp" ++ 58 :: show_dec d).
+Proof.
+  intros Hd.
+  assert (G : forall k, (k < 64)%nat ->
+    c17_ec cp (TrafficMarking (N.of_nat k)) (codes "traffic-marking-dscp" ++ 58 :: show_dec (N.of_nat k))).
+  { intros k Hk. destruct cp as [| |[|]];
+    do 64 (destruct k as [|k]; [split; [vm_compute; reflexivity |
+           eexists; split; [vm_compute; reflexivity | vm_compute; reflexivity]]|]); lia. }
+  specialize (G (N.to_nat d) ltac:(lia)). rewrite Nnat.N2Nat.id in G. exact G.
+Qed.
+
+(** * kinds proved in part only *)
+(** traffic-rate: the translation of the views accepts the text of every (AS, whole rate); the
+    binary32 packing/unpacking of the rate (int_to_f32 / f32_to_int) is tied by correspondence *)
+Lemma rest_key_rate cp v :
+  rest_key cp (codes "traffic-rate") v = rmap (fun vau => ROk (ItS 32774 (strip vau))) (split_on 44 (strip v)).
+Proof. reflexivity. Qed.
+Lemma c17_traffic_rate_rest cp a r :
+  rest_ec cp [codes "traffic-rate" ++ 58 :: dc a r] = ROk [ItS 32774 (dc a r)].
+Proof.
+  apply rest_ec_one; [apply notin_closed; reflexivity|].
+  change (lower (strip (codes "traffic-rate"))) with (codes "traffic-rate").
+  rewrite rest_key_rate, strip_dc, commas_dc. cbn [rmap rbind]. rewrite strip_dc. reflexivity.
+Qed.
+
+(** es-import / router-mac: the decoder renders the RFC octets as XX-XX-XX-XX-XX-XX for every MAC;
+    acceptance of that text and its re-encoding are tied by correspondence *)
+Lemma parse_mac_kind (t s : N) nm m :
+  ec_parse_code (t * 256 + s) (be 6 m) = named (t * 256 + s) (txt_mac (be 6 m)) ->
+  assoc_n (t * 256 + s) ext_com_str_dict = Some nm ->
+  ec_parse ([t; s] ++ be 6 m) = Ok [Txt (nm ++ 58 :: show_mac (be 6 m))].
+Proof.
+  intros Hc Hnm. apply ec_parse_one; [rewrite !app_length, !length_be; reflexivity|].
+  unfold ec_parse1. cbn [app take firstn drop skipn]. rewrite two_code.
+  rewrite Hc. unfold named. rewrite Hnm. reflexivity.
+Qed.
+Lemma c17_es_import_parse m :
+  ec_parse (ref_ec (EsImport m)) = Ok [Txt (codes "es-import" ++ 58 :: show_mac (be 6 m))].
+Proof. apply (parse_mac_kind 6 2); reflexivity. Qed.
+Lemma c17_router_mac_parse m :
+  ec_parse (ref_ec (RouterMac m)) = Ok [Txt (codes "router-mac" ++ 58 :: show_mac (be 6 m))].
+Proof. apply (parse_mac_kind 6 3); reflexivity. Qed.
